@@ -6,11 +6,18 @@ package main
 //        cfg BS NAMESPEC                     new file in a fresh path, NewFileWriterWithName(path, BS, name)
 //        w OP KEYSPEC DATASPEC               WriteEntry;  SPEC = x:HEX | g:LEN:SEED   (x:- is empty)
 //        wn N KLEN DLEN START                N inserts, key = g:KLEN:(START+i), data = g:DLEN:(START+i)
+//        wb N KLEN DLEN START                one WriteEntries call with N generated inserts
+//        wk N DLEN START                     N inserts with distinct 4-byte counter keys (START+i, little endian)
+//        stalehdr                            (writer closed) zero the header's EntryCount/BlockCount in place: the crash
+//                                            window between the block append and the header rewrite of flushLocked
+//        compact                             (writer closed) v2.NewCompactor(path, bs, 0).ForceCompact()
 //        flush | sync | close | reopen
 //        load                                NewFileReader(path).LoadIndex()
 //        raw HEX                             HEX = the file's bytes as the *generator's* run of the real
 //                                            writer left them; both sides parse them with their reader
 //        ccfg BS NAMESPEC | cw KEYSPEC CONTENTSPEC | cd KEYSPEC | cclose | cload
+//        cwb K|KEYSPEC|CONTENTSPEC;…          ONE Write call with several treasures; K = i (no file name → INSERT),
+//                                            u (file name set → UPDATE), d (marked deleted → DELETE)
 //                                            the same through the chronicler: Write([]Treasure) picks INSERT/DELETE,
 //                                            Close, and a *new* chronicler's Load into a beacon (reply cidx N:CRC)
 // reply: ok | rej KIND
@@ -336,6 +343,76 @@ func (s *c01Sess) apply(f []string) string {
 			return "ok"
 		}
 		return fmt.Sprintf("%s after=%d", last, okc)
+	case f[0] == "wb" && len(f) == 5:
+		n, e1 := strconv.Atoi(f[1])
+		kl, e2 := strconv.Atoi(f[2])
+		dl, e3 := strconv.Atoi(f[3])
+		st, e4 := strconv.Atoi(f[4])
+		if e1 != nil || e2 != nil || e3 != nil || e4 != nil {
+			return "bad-op"
+		}
+		if s.fw == nil {
+			return "rej closed"
+		}
+		batch := make([]v2.Entry, n)
+		for i := range batch {
+			batch[i] = v2.Entry{Operation: 1, Key: string(c01GenBytes(kl, st+i)), Data: c01GenBytes(dl, st+i)}
+		}
+		return c01WriteErr(s.fw.WriteEntries(batch))
+	case f[0] == "wk" && len(f) == 4:
+		n, e1 := strconv.Atoi(f[1])
+		dl, e2 := strconv.Atoi(f[2])
+		st, e3 := strconv.Atoi(f[3])
+		if e1 != nil || e2 != nil || e3 != nil {
+			return "bad-op"
+		}
+		okc, last := 0, "ok"
+		var k [4]byte
+		for i := 0; i < n; i++ {
+			binary.LittleEndian.PutUint32(k[:], uint32(st+i))
+			r := s.write(1, k[:], c01GenBytes(dl, st+i))
+			if r == "ok" {
+				okc++
+			} else {
+				last = r
+			}
+		}
+		if okc == n {
+			return "ok"
+		}
+		return fmt.Sprintf("%s after=%d", last, okc)
+	case len(f) == 1 && f[0] == "stalehdr":
+		if s.fw != nil {
+			return "rej open"
+		}
+		if !s.exists {
+			return "rej header"
+		}
+		fh, err := os.OpenFile(s.path, os.O_RDWR, 0o644)
+		if err != nil {
+			return "rej header"
+		}
+		_, err = fh.WriteAt(make([]byte, 16), 28)
+		_ = fh.Close()
+		if err != nil {
+			return "rej header"
+		}
+		return "ok"
+	case len(f) == 1 && f[0] == "compact":
+		if s.fw != nil {
+			return "rej open"
+		}
+		if !s.exists {
+			return "rej header"
+		}
+		res, err := v2.NewCompactor(s.path, s.bs, 0).ForceCompact()
+		if err != nil {
+			return "rej header"
+		}
+		if res == nil || !res.Compacted {
+			return "skip"
+		}
+		return "ok"
 	case len(f) == 1 && (f[0] == "flush" || f[0] == "sync" || f[0] == "close" || f[0] == "reopen"):
 		return s.ctl(f[0])
 	case len(f) == 1 && f[0] == "load":
@@ -401,6 +478,38 @@ func (c *c01Chron) apply(dir string, n *int, f []string) string {
 		t.ReleaseTreasureGuard(g)
 		c.ch.Write([]treasure.Treasure{t})
 		return "ok"
+	case f[0] == "cwb" && len(f) == 2:
+		var batch []treasure.Treasure
+		for _, it := range strings.Split(f[1], ";") {
+			p := strings.Split(it, "|")
+			if len(p) != 3 {
+				return "bad-op"
+			}
+			k, ok1 := c01Spec(p[1])
+			v, ok2 := c01Spec(p[2])
+			if !ok1 || !ok2 {
+				return "bad-op"
+			}
+			t := treasure.New(nil)
+			g := t.StartTreasureGuard(false, guard.BodyAuthID)
+			t.BodySetKey(g, string(k))
+			switch p[0] {
+			case "i":
+				t.SetContentString(g, string(v))
+			case "u":
+				t.SetContentString(g, string(v))
+				t.BodySetFileName(g, c.path+".hyd")
+			case "d":
+				t.BodySetForDeletion(g, "verif", true)
+			default:
+				t.ReleaseTreasureGuard(g)
+				return "bad-op"
+			}
+			t.ReleaseTreasureGuard(g)
+			batch = append(batch, t)
+		}
+		c.ch.Write(batch)
+		return "ok"
 	case f[0] == "cclose" && len(f) == 1:
 		if err := c.ch.Close(); err != nil {
 			return "err close"
@@ -455,7 +564,7 @@ func c01Run(in *bufio.Scanner, w *bufio.Writer) {
 		switch {
 		case f[0] == "case":
 			fmt.Fprintln(w, line)
-		case strings.HasPrefix(f[0], "c") && f[0] != "cfg" && f[0] != "close":
+		case strings.HasPrefix(f[0], "c") && f[0] != "cfg" && f[0] != "close" && f[0] != "compact":
 			fmt.Fprintln(w, ch.apply(dir, &nch, f))
 		case f[0] == "raw" && len(f) == 2:
 			want, ok := c01Unhex(f[1])
@@ -607,6 +716,30 @@ func c01Gen(rng *rand.Rand, tier string, w *bufio.Writer) {
 	}
 	g.raw()
 
+	newCase() // stale header: the crash window of flushLocked, then ordinary sessions
+	g.emit("cfg 64 x:" + c01Hex([]byte("a/b/c")))
+	for _, l := range []string{"w 1 x:6b31 x:7631", "close", "stalehdr", "load", "reopen", "w 1 x:6b32 x:7632", "w 3 x:6b31 x:-", "close", "load",
+		"reopen", "wn 20 3 10 5", "close", "load"} {
+		g.emit(l)
+	}
+	g.raw()
+	newCase() // WriteEntries batches and compaction
+	g.emit("cfg 128 x:" + c01Hex([]byte("a/b/c")))
+	for _, l := range []string{"wb 40 3 20 7", "w 3 g:3:9 x:-", "wb 5 2 300 1", "close", "load"} {
+		g.emit(l)
+	}
+	g.raw()
+	for _, l := range []string{"compact", "load", "reopen", "wb 9 3 5 100", "w 2 g:3:7 x:ff", "close", "compact", "load"} {
+		g.emit(l)
+	}
+	if tier == "thorough" {
+		newCase() // more live keys than a block's 16-bit entry count, then compaction
+		g.emit("cfg 0 x:" + c01Hex([]byte("a/b/c")))
+		for _, l := range []string{"wk 70000 3 0", "w 3 x:00000000 x:-", "close", "load", "compact", "load"} {
+			g.emit(l)
+		}
+	}
+
 	// ---- the chronicler path (lines are only emitted here; the generator does not need the files)
 	chCases := 40
 	if tier == "thorough" {
@@ -632,6 +765,23 @@ func c01Gen(rng *rand.Rand, tier string, w *bufio.Writer) {
 		for i, n := 0, 4+rng.Intn(40); i < n; i++ {
 			k := keys[rng.Intn(len(keys))]
 			switch p := rng.Intn(100); {
+			case p < 20: // one Write call with several treasures: INSERT / UPDATE / DELETE mixed
+				var items []string
+				for j, m := 0, 2+rng.Intn(5); j < m; j++ {
+					kk := keys[rng.Intn(len(keys))]
+					if (c == 2 || c == 3) && j == 1 { // an unencodable key in the middle of a batch
+						kk = []string{"x:-", "g:70000:5"}[c-2]
+					}
+					switch rng.Intn(5) {
+					case 0:
+						items = append(items, "d|"+kk+"|x:-")
+					case 1, 2:
+						items = append(items, fmt.Sprintf("u|%s|g:%d:%d", kk, 1+rng.Intn(300), rng.Intn(1000)))
+					default:
+						items = append(items, fmt.Sprintf("i|%s|g:%d:%d", kk, 1+rng.Intn(300), rng.Intn(1000)))
+					}
+				}
+				fmt.Fprintf(w, "cwb %s\n", strings.Join(items, ";"))
 			case p < 65:
 				fmt.Fprintf(w, "cw %s g:%d:%d\n", k, 1+rng.Intn([]int{8, 60, 600, 20000}[rng.Intn(4)]), rng.Intn(1000))
 			case p < 85:
@@ -673,6 +823,7 @@ func c01Gen(rng *rand.Rand, tier string, w *bufio.Writer) {
 		var pool []string
 		n := 3 + rng.Intn(maxOps)
 		phaseDelete := rng.Intn(3) == 0
+		compacted := false
 		for i := 0; i < n; i++ {
 			p := rng.Intn(100)
 			switch {
@@ -693,8 +844,10 @@ func c01Gen(rng *rand.Rand, tier string, w *bufio.Writer) {
 					data = "x:-"
 				}
 				g.emit(fmt.Sprintf("w %d %s %s", op, g.keySpec(&pool, tier), data))
-			case p < 66:
+			case p < 65:
 				g.emit(fmt.Sprintf("wn %d %d %d %d", 1+rng.Intn(300), 1+rng.Intn(12), rng.Intn(40), rng.Intn(1000)))
+			case p < 66:
+				g.emit(fmt.Sprintf("wb %d %d %d %d", 1+rng.Intn(200), 1+rng.Intn(12), rng.Intn(60), rng.Intn(1000)))
 			case p < 74:
 				g.emit("flush")
 			case p < 79:
@@ -705,6 +858,14 @@ func c01Gen(rng *rand.Rand, tier string, w *bufio.Writer) {
 					if rng.Intn(5) == 0 {
 						g.emit("load")
 					}
+					if rng.Intn(8) == 0 {
+						g.emit("stalehdr")
+					}
+					if rng.Intn(8) == 0 && !compacted {
+						g.emit("compact")
+						g.emit("load")
+						compacted = true // block boundaries after a compaction depend on Go's map order: no more `raw`
+					}
 					g.emit("reopen")
 				}
 			case p < 90:
@@ -712,7 +873,9 @@ func c01Gen(rng *rand.Rand, tier string, w *bufio.Writer) {
 			case p < 98:
 				g.emit("load")
 			default:
-				g.raw()
+				if !compacted {
+					g.raw()
+				}
 			}
 		}
 		switch rng.Intn(4) {
@@ -724,7 +887,9 @@ func c01Gen(rng *rand.Rand, tier string, w *bufio.Writer) {
 			g.emit("close")
 		}
 		g.emit("load")
-		g.raw()
+		if !compacted {
+			g.raw()
+		}
 	}
 	if g.sess.fw != nil {
 		_ = g.sess.fw.Close()
